@@ -184,3 +184,179 @@ def categoric_rules(prog, rep, rule_policy, rule_zero, fn):
     summary["fields"] = sorted({n.attr for n in ast.walk(fn.node) if is_self_attr(n)})
     summary["n_stores"] = len(stores)
     return summary
+
+
+# ------------------------------------------------------------------------------------------
+# component / effect ownership at Term(...) and GroupSpecificTerm(...) constructor sites (R6.4, R4.5, R5.6)
+# ------------------------------------------------------------------------------------------
+COPY_FUNCS = {"deepcopy", "copy.deepcopy"}
+
+
+def _is_copy(node):
+    return isinstance(node, ast.Call) and dotted(node.func) in COPY_FUNCS and len(node.args) == 1
+
+
+def _innermost_branch(fn, node):
+    """statements of the innermost if/elif/else branch (or function body) that contains node"""
+    best = fn.body
+    for i in ast.walk(fn.node):
+        if isinstance(i, ast.If):
+            for br in (i.body, i.orelse):
+                if br and any(node is x for s in br for x in ast.walk(s)):
+                    if len(br) == 1 and isinstance(br[0], ast.If) and br is i.orelse:
+                        continue  # elif chain: descend
+                    if sum(1 for s in br for _ in ast.walk(s)) < sum(1 for s in best for _ in ast.walk(s)):
+                        best = br
+    return best
+
+
+def _product_info(fn, comp, defs):
+    """for a comprehension `... for p in <product(A, B)>`: (var, [A, B]) or None"""
+    if len(comp.generators) != 1 or not isinstance(comp.generators[0].target, ast.Name):
+        return None
+    it = comp.generators[0].iter
+    if isinstance(it, ast.Name) and it.id in defs:
+        it = defs[it.id]
+    if isinstance(it, ast.Call) and dotted(it.func) in ("product", "itertools.product") and len(it.args) == 2:
+        return comp.generators[0].target.id, list(it.args)
+    return None
+
+
+def ownership_sites(prog):
+    """classify every Term(...) / GroupSpecificTerm(...) constructor site in terms.py.
+    returns list of dict(fn, node, cls, args=[(position, source text, verdict, reason)])"""
+    mod = prog.mod("terms.terms")
+    out = []
+    for q, fn in sorted(prog.functions.items()):
+        if fn.module is not mod or fn.parent is not None:
+            continue
+        defs = {}
+        for s in walk_local(fn.node):
+            if isinstance(s, ast.Assign) and len(s.targets) == 1 and isinstance(s.targets[0], ast.Name):
+                defs[s.targets[0].id] = s.value
+        params = fn.params
+        for call in calls_in(fn.node, local=False):
+            cname = dotted(call.func)
+            if cname not in ("Term", "GroupSpecificTerm"):
+                continue
+            branch = _innermost_branch(fn, call)
+            # uses inside tests and raise statements do not keep an object in the result
+            skip = set()
+            for s in branch:
+                for x in ast.walk(s):
+                    if isinstance(x, ast.If):
+                        skip |= {id(y) for y in ast.walk(x.test)}
+                    if isinstance(x, ast.Raise):
+                        skip |= {id(y) for y in ast.walk(x)}
+            branch_src = [x for s in branch for x in ast.walk(s) if id(x) not in skip]
+            # definitions local to this branch take precedence (names such as `products` are re-used per branch)
+            bdefs = dict(defs)
+            for s in branch:
+                for x in ast.walk(s):
+                    if isinstance(x, ast.Assign) and len(x.targets) == 1 and isinstance(x.targets[0], ast.Name):
+                        bdefs[x.targets[0].id] = x.value
+            # enclosing comprehension (multiplicity)
+            comp = None
+            for n in ast.walk(fn.node):
+                if isinstance(n, (ast.ListComp, ast.GeneratorExp)) and any(call is x for x in ast.walk(n.elt)):
+                    comp = n
+            pinfo = _product_info(fn, comp, bdefs) if comp is not None else None
+            site = {"fn": fn, "node": call, "cls": cname, "args": []}
+
+            def classify(arg, position):
+                a = arg.value if isinstance(arg, ast.Starred) else arg
+                src = unparse(a)
+                # copied
+                if _is_copy(a):
+                    return ("copied", f"{dotted(a.func)}(...)")
+                if isinstance(a, (ast.ListComp, ast.GeneratorExp)) and _is_copy(a.elt):
+                    return ("copied", "every element is deep-copied")
+                if isinstance(a, ast.BinOp) and isinstance(a.op, ast.Add) and all(_is_copy(x) for x in (a.left, a.right)):
+                    return ("copied", "concatenation of deep copies")
+                # fresh
+                if isinstance(a, ast.Call) and dotted(a.func) in ("Intercept", "Variable", "Call", "NegatedIntercept"):
+                    return ("fresh", f"new {dotted(a.func)} object")
+                # factor position of a group-specific term: sharing is benign (always full coding, same data)
+                if cname == "GroupSpecificTerm" and position == 1:
+                    return ("benign-shared", "grouping factor: every holder evaluates it with the same (full) coding")
+                # an Intercept as effect carries no holder-dependent state
+                if cname == "GroupSpecificTerm" and position == 0 and src == "self" and fn.cls is not None and fn.cls.name == "Intercept":
+                    return ("benign-shared", "Intercept effect: evaluation state does not depend on the holder")
+                # moved: owner object
+                owner = None
+                if isinstance(a, ast.Attribute) and a.attr in ("components", "common_components") and isinstance(a.value, ast.Name):
+                    owner = a.value.id
+                elif isinstance(a, ast.Name):
+                    owner = a.id
+                elif isinstance(a, ast.Subscript) and isinstance(a.value, ast.Name) and isinstance(a.slice, ast.Constant):
+                    owner = f"{a.value.id}[{a.slice.value}]"
+                elif isinstance(a, ast.Attribute) and isinstance(a.value, ast.Subscript) and isinstance(a.value.value, ast.Name) \
+                        and isinstance(a.value.slice, ast.Constant) and a.attr == "components":
+                    owner = f"{a.value.value.id}[{a.value.slice.value}]"
+                if owner is None:
+                    return ("shared", f"source `{src}` is neither copied, fresh nor a recognised moved operand")
+                # multiplicity through product(...)
+                if pinfo is not None and owner.startswith(pinfo[0] + "["):
+                    k = int(owner[len(pinfo[0]) + 1:-1])
+                    other_iter = pinfo[1][1 - k] if k in (0, 1) else None
+                    this_iter0 = pinfo[1][k] if k in (0, 1) else None
+                    if (cname == "GroupSpecificTerm" and position == 0 and fn.cls is not None and fn.cls.name == "Intercept"
+                            and isinstance(this_iter0, ast.List) and [unparse(e) for e in this_iter0.elts] == ["self"]):
+                        return ("benign-shared", "Intercept effect: evaluation state does not depend on the holder")
+                    single = isinstance(other_iter, ast.List) and len(other_iter.elts) == 1
+                    if not single:
+                        return ("shared", f"`{src}`: the operand is paired with every element of `{unparse(other_iter)}`, "
+                                          "so one object ends up in several terms")
+                    this_iter = pinfo[1][k]
+                    root_owner = unparse(this_iter)
+                    # elements of a list literal like [self]: the owner is that name
+                    if isinstance(this_iter, ast.List) and len(this_iter.elts) == 1 and isinstance(this_iter.elts[0], ast.Name):
+                        owner_name = this_iter.elts[0].id
+                    else:
+                        owner_name = None
+                    if owner_name == "self" and fn.cls is not None and fn.cls.name == "Intercept" and cname == "GroupSpecificTerm" and position == 0:
+                        return ("benign-shared", "Intercept effect: evaluation state does not depend on the holder")
+                    if owner_name is not None:
+                        uses = [x for x in branch_src if isinstance(x, ast.Name) and x.id == owner_name and isinstance(x.ctx, ast.Load)]
+                        iters = sum(1 for x in branch_src if isinstance(x, ast.Call) and dotted(x.func) in ("product", "itertools.product")
+                                    and any(isinstance(e, ast.List) and any(isinstance(z, ast.Name) and z.id == owner_name for z in e.elts) for e in x.args))
+                        if len(uses) > iters:
+                            return ("shared", f"`{owner_name}` is used again in the same result")
+                    return ("moved", f"each element of `{root_owner}` is used for exactly one new term")
+                if comp is not None and pinfo is None:
+                    # comprehension that does not iterate a product: owner constant across iterations?
+                    tgt_names = {n.id for g in comp.generators for n in ast.walk(g.target) if isinstance(n, ast.Name)}
+                    base = owner.split("[")[0]
+                    if base not in tgt_names:
+                        return ("shared", f"`{src}` is the same object in every iteration of the comprehension")
+                # plain operand: must not occur anywhere else in the branch (it would stay part of the result)
+                base = owner.split("[")[0]
+                if base in ("self", *params):
+                    others = [x for x in branch_src if isinstance(x, ast.Name) and x.id == base and isinstance(x.ctx, ast.Load)]
+                    mine = [x for x in ast.walk(a) if isinstance(x, ast.Name) and x.id == base]
+                    # other uses inside *other* constructor args of the same kind of source or in Model(...)/return position
+                    extra = [x for x in others if not any(x is y for y in mine)]
+                    # uses in tests (`self == other`) do not keep the object in the result: only consider uses in this branch
+                    if extra:
+                        return ("shared", f"`{base}` also occurs elsewhere in the same result ({len(extra)} more use(s)): "
+                                          "the operand and the new term hold the same objects")
+                    return ("moved", f"`{base}` is consumed: it occurs nowhere else in the result")
+                return ("shared", f"source `{src}` is not an operand of this method")
+
+            for i, a in enumerate(call.args):
+                site["args"].append((i, unparse(a), *classify(a, i)))
+            out.append(site)
+    return out
+
+
+def ownership_rule(prog, rep, rule, which=("Term", "GroupSpecificTerm")):
+    sites = [s for s in ownership_sites(prog) if s["cls"] in which]
+    for s in sites:
+        fn, call = s["fn"], s["node"]
+        bad = [a for a in s["args"] if a[2] == "shared"]
+        verdicts = ", ".join(f"{a[1]}: {a[2]}" for a in s["args"])
+        obl(rep, fn, call, rule, not bad, short(call, 90),
+            verdicts,
+            "; ".join(f"{a[1]}: {a[3]}" for a in bad) + " - objects with per-term evaluation state get two holders "
+            "(labels and columns disagree; evaluating the training frame as new data changes the width)")
+    return len(sites)
